@@ -158,7 +158,8 @@ class Job:
                  harness=None, unwind=None, solvers=('minisat',), timeout=120, klass='proof', bound='',
                  shim=None, shim_types=None, oracle=None, canary='ensures', skip_this=None, prop=None,
                  extra_c='', loop_contracts=False, note='', inline_ok=True, cbmc_flags=(), inputs=None,
-                 expect_fail=None, finding=None, layer=0, object_bits=12, mem_gb=12, cex_filter=None, optional=False, via=None, abstract_mul=False, abstract_fp=False, ignore_classes=(), abstract_div=False, unwindset=(), plain=False):
+                 expect_fail=None, finding=None, layer=0, object_bits=12, mem_gb=12, cex_filter=None, optional=False, via=None, abstract_mul=False, abstract_fp=False, ignore_classes=(), abstract_div=False, unwindset=(), plain=False, mem_est=None):
+        self.mem_est = mem_est      # expected peak resident memory in GB for admission control (default: a quarter of the address-space limit)
         self.unwindset = list(unwindset)
         self.plain = plain      # contract enforced by the harness (assume requires / assert ensures), no DFCC instrumentation: frame NOT checked
         self.via = via
@@ -984,7 +985,7 @@ def run_jobs(jobs, kernels, wd, workers=None, progress=None):
         def admitted(j):
             key = '%d:%s' % (os.getpid(), j.name)
             try:
-                MEM.acquire(key, j.mem_gb / 4.0)
+                MEM.acquire(key, j.mem_est or j.mem_gb / 4.0)
             except OSError:
                 key = None          # admission control is best effort (read-only / full disk): run anyway
             try:
